@@ -10,6 +10,7 @@ import shutil
 import tempfile
 
 from sim import clock as simclock
+from sim import env as simenv
 from sim import fs as simfs
 from sim import identity
 from sim import manager as simmanager
@@ -33,11 +34,17 @@ class Scratch:
         self.path = None
 
     def __enter__(self):
-        self.path = tempfile.mkdtemp(prefix=f"pfsim-{os.getpid()}-", dir=SCRATCH_BASE)
+        self.top = tempfile.mkdtemp(prefix=f"pfsim-{os.getpid()}-", dir=SCRATCH_BASE)
+        self.path = self.top
+        odd = simenv.get("path")
+        if odd:
+            # the directory everything of the case lives in has an awkward (but ordinary) name
+            self.path = os.path.join(self.top, odd)
+            os.mkdir(self.path)
         return self.path
 
     def __exit__(self, *a):
-        simfs.real_rmtree(self.path)
+        simfs.real_rmtree(self.top)
         return False
 
 
